@@ -28,7 +28,7 @@ var instCounter int
 // basePackages are used by every fresh package: cl, and cl-user because slip
 // registers its condition classes in cl-user at start-up (a package that does
 // not see them faults in ErrorNew on any error, which is not this property).
-const baseUse = "(:use :cl :cl-user"
+const baseUse = "(:use :cl-user"
 
 // pkgOpts are additional defpackage options of one package: names of packages
 // to use (@a style) and further option text.
